@@ -51,20 +51,117 @@ def _token(src, name, rel):
     return exlib.int_literals(m.group(1))
 
 
-def _millis(body):
-    return [int(x.replace("_", "")) for x in re.findall(r"from_millis\(\s*([0-9_]+)\s*\)", body)]
+_DUR_UNITS = {"from_millis": 1000, "from_secs": 1000000, "from_micros": 1}
+_DUR_CALL = re.compile(r"Duration::(from_millis|from_secs|from_micros)\(\s*([A-Za-z_0-9:]+)\s*\)")
+
+
+def _int_arg(src, rel, arg, seen=()):
+    """integer literal, or a file-level integer constant (resolved recursively)"""
+    a = arg.replace("_", "") if re.fullmatch(r"[0-9][0-9_]*", arg) else arg
+    if a.isdigit():
+        return int(a)
+    name = arg.split("::")[-1]
+    if name in seen:
+        raise exlib.ExtractError("%s: cyclic constant %s" % (rel, name))
+    m = re.search(r"\bconst\s+%s\s*:\s*[a-z0-9]+\s*=\s*([^;]+);" % re.escape(name), src)
+    if not m:
+        raise exlib.ExtractError("%s: cannot resolve duration argument `%s`" % (rel, arg))
+    e = m.group(1).strip()
+    e = re.sub(r"\bas\s+[a-z0-9]+", "", e).strip()
+    if re.fullmatch(r"[0-9][0-9_]*(?:u8|u16|u32|u64|usize|i32|i64)?", e):
+        return int(re.sub(r"[a-z].*$", "", e.replace("_", "")))
+    if re.fullmatch(r"[A-Za-z_][A-Za-z_0-9:]*", e):
+        return _int_arg(src, rel, e, seen + (name,))
+    try:
+        return int(eval(re.sub(r"(?<=[0-9])_(?=[0-9])", "", e), {"__builtins__": {}}, {}))
+    except Exception as ex:
+        raise exlib.ExtractError("%s: cannot evaluate constant %s = %s: %r" % (rel, name, e, ex))
+
+
+def _duration_consts(src, rel):
+    """file-level `const NAME: Duration = <Duration::from_*(..) | OTHER_CONST>;` -> microseconds"""
+    raw = {}
+    for m in re.finditer(r"\bconst\s+([A-Z_0-9a-z]+)\s*:\s*(?:std::time::)?Duration\s*=\s*([^;]+);", src):
+        raw[m.group(1)] = m.group(2).strip()
+    out = {}
+
+    def resolve(name, seen=()):
+        if name in out:
+            return out[name]
+        if name in seen or name not in raw:
+            raise exlib.ExtractError("%s: cannot resolve Duration constant %s" % (rel, name))
+        e = raw[name]
+        m = _DUR_CALL.fullmatch(e)
+        if m:
+            v = _int_arg(src, rel, m.group(2)) * _DUR_UNITS[m.group(1)]
+        elif re.fullmatch(r"[A-Za-z_][A-Za-z_0-9]*", e):
+            v = resolve(e, seen + (name,))
+        else:
+            raise exlib.ExtractError("%s: unsupported Duration constant %s = %s" % (rel, name, e))
+        out[name] = v
+        return v
+
+    for n in list(raw):
+        resolve(n)
+    return out, raw
+
+
+def _durations_us(src, rel, body, consts):
+    """every duration (in microseconds) a piece of code mentions: `Duration::from_*(N|CONST)` calls and
+    uses of file-level Duration constants"""
+    out = []
+    for m in _DUR_CALL.finditer(body):
+        out.append(_int_arg(src, rel, m.group(2)) * _DUR_UNITS[m.group(1)])
+    for name, v in consts.items():
+        for _ in re.finditer(r"(?<![A-Za-z_0-9])%s(?![A-Za-z_0-9])" % re.escape(name), body):
+            out.append(v)
+    return out
+
+
+def _strip_const_defs(src):
+    return re.sub(r"\bconst\s+[A-Za-z_0-9]+\s*:\s*[^=;]+=\s*[^;]+;", "", src)
+
+
+def _to_ms(us, rel, what):
+    if us % 1000 != 0:
+        raise exlib.ExtractError("%s: %s is not a whole number of milliseconds (%d us)" % (rel, what, us))
+    return us // 1000
 
 
 def _conn(repo, rel, ns):
     src = exlib.strip_rust_comments(exlib.read(repo, rel))
-    resend = _millis(exlib.fn_body(src, "start_timeout", 0, rel))
+    consts, _raw = _duration_consts(src, rel)
+    code = _strip_const_defs(src)
+    # retransmission interval: what `ResendChunk::start_timeout` arms its timer with (through a literal,
+    # a file-level constant, or — if the method was restructured — whatever the `impl ResendChunk`
+    # block mentions)
+    try:
+        st_body = exlib.fn_body(code, "start_timeout", 0, rel)
+    except exlib.ExtractError:
+        st_body = ""
+    resend = sorted(set(_durations_us(src, rel, st_body, consts)))
+    if not resend:
+        m = re.search(r"\bimpl\s+ResendChunk\s*\{", code)
+        if m:
+            i = m.end() - 1
+            depth, j = 0, i
+            while j < len(code):
+                if code[j] == "{":
+                    depth += 1
+                elif code[j] == "}":
+                    depth -= 1
+                    if depth == 0:
+                        break
+                j += 1
+            resend = sorted(set(_durations_us(src, rel, code[i:j + 1], consts)))
     if len(resend) != 1:
-        raise exlib.ExtractError("%s: expected exactly one from_millis literal in start_timeout, got %r" % (rel, resend))
-    every = _millis(src)
-    others = sorted(set(every))
-    others = [x for x in others if x != resend[0]] or [resend[0]]
+        raise exlib.ExtractError("%s: expected exactly one retransmission interval in ResendChunk::start_timeout, got %r us" % (rel, resend))
+    every = _durations_us(src, rel, code, consts)
+    others = sorted(set(x for x in every if x != resend[0])) or [resend[0]]
     if len(others) != 1:
-        raise exlib.ExtractError("%s: the model assumes one send interval, found from_millis literals %r" % (rel, sorted(set(every))))
+        raise exlib.ExtractError("%s: the model assumes one send interval, found durations %r us" % (rel, sorted(set(every))))
+    resend = [_to_ms(resend[0], rel, "retransmission interval")]
+    others = [_to_ms(others[0], rel, "send interval")]
     caps = sorted(set(int(x) for x in re.findall(r"ArrayVec<\[u8;\s*([0-9]+)\]>", src)))
     if len(caps) != 1:
         raise exlib.ExtractError("%s: expected one ArrayVec<[u8; N]> capacity, got %r" % (rel, caps))
